@@ -64,6 +64,26 @@ type c14Setup struct {
 	Op   string `json:"op"` // add, grow, prev (a previous process looks it up), resetcfg, cfgnow, dropcache
 	Path string `json:"p,omitempty"`
 	Vers string `json:"v,omitempty"`
+	N    int    `json:"n,omitempty"` // bulk: that many filler records
+}
+
+// c14GenBig: a log of 150-1200 records read through tiles of height 1 or 2, so that one
+// ReadTiles call asks for many tiles (more than 8 from ~100 records at height 1, ~1000 at 2).
+func c14GenBig(r *rand.Rand) c14Scn {
+	s := c14GenScn(r, false)
+	h, n := 1, 150+r.Intn(450)
+	if r.Intn(3) == 0 {
+		h, n = 2, 1000+r.Intn(200)
+	}
+	for i := range s.Clients {
+		s.Clients[i].Height = h
+	}
+	s.PrevH = h
+	s.Setup = append([]c14Setup{{Op: "bulk", N: n}}, s.Setup...)
+	if len(s.Lookups) > 4 {
+		s.Lookups = s.Lookups[:4]
+	}
+	return s
 }
 
 type c14Scn struct {
@@ -175,6 +195,10 @@ func c14World(s c14Scn) *gen.ConcWorld {
 		switch st.Op {
 		case "grow":
 			w.Grow()
+		case "bulk":
+			for i := 0; i < st.N; i++ {
+				w.Grow()
+			}
 		case "add":
 			w.AddRecord(st.Path, st.Vers)
 		case "prev":
@@ -271,6 +295,7 @@ func c14Exec(in c14In) *c14Outcome {
 		skip[t] = c14Matches[s.Clients[l.Client].NoSumDB][l.Path]
 	}
 	var cache0 []wire.Val
+	keep := map[int64]bool{hsize(cfg0): true} // older heads the scenario refers to
 	for k, f := range keys {
 		if d, ok := w.Cache[gen.ConcName+f]; ok {
 			h, err := gen.ConcHeadOfRecord(d)
@@ -278,6 +303,7 @@ func c14Exec(in c14In) *c14Outcome {
 				panic(err)
 			}
 			cache0 = append(cache0, wire.L(wire.Int(k), wire.I(h.N), wire.S(h.Hash)))
+			keep[h.N] = true
 		}
 	}
 	run := gen.RunConc(w, s.Clients, s.Lookups, s.Grow, s.AutoStart, &gen.FixedChooser{List: in.Choices}, 20*time.Second)
@@ -416,8 +442,17 @@ func c14Exec(in c14In) *c14Outcome {
 		o.Fail["no-security-error"] = fmt.Sprintf("%d security errors, %d stray calls: %s", len(run.Security), run.Stray, o.Trace)
 	}
 	// --- the correspondence case
+	// the chain of the case: the older heads the scenario refers to, then every head from the
+	// server's head at the start of the scheduled phase on
 	var chain []wire.Val
-	for _, h := range w.Chain {
+	curIdx := 0
+	for i, h := range w.Chain {
+		if i < cur0 && !keep[h.N] {
+			continue
+		}
+		if i < cur0 {
+			curIdx++
+		}
 		chain = append(chain, wire.L(wire.I(h.N), wire.S(h.Hash)))
 	}
 	var clients, threads, evs, results []wire.Val
@@ -459,7 +494,7 @@ func c14Exec(in c14In) *c14Outcome {
 			evs = append(evs, wire.L(wire.I(7), wire.Int(e.Tid), wire.Int(e.Site)))
 		}
 	}
-	scen := wire.L(wire.L(chain...), wire.Int(cur0), headVal(cfg0), wire.L(cache0...), wire.L(clients...), wire.L(threads...))
+	scen := wire.L(wire.L(chain...), wire.Int(curIdx), headVal(cfg0), wire.L(cache0...), wire.L(clients...), wire.L(threads...))
 	o.Arg = wire.L(scen, wire.L(evs...), wire.L(results...), headVal(run.FinalCfg))
 	return o
 }
@@ -553,9 +588,14 @@ func runC14(c *hx.Ctx) {
 			}
 		}
 	}
-	// random schedules, 2-8 threads, 1-2 clients
-	for i := 0; i < c.N(1200); i++ {
+	// random schedules, 2-8 threads, 1-2 clients; a few on large logs with small tiles
+	nBig := c.N(24)
+	for i := 0; i < c.N(1200)+nBig; i++ {
 		scn := c14GenScn(rand.New(rand.NewSource(r.Int63())), false)
+		if i < nBig {
+			scn = c14GenBig(rand.New(rand.NewSource(r.Int63())))
+			c.Count("large-log")
+		}
 		m := 2 * len(scn.Lookups) * 12
 		choices := make([]int, m)
 		// biased draws: sometimes run one thread for a while, which produces the long
